@@ -7,6 +7,8 @@ open Proto Weights
       fjq   <K> <W q-list> <Y flat q-list>               -> none | f_j q-list
       rwq   <E> <ak q-list> <R flat (K x E) q-list>      -> code:<R_i q-list> spec:<R_i q-list | none when A = 0>
       row   <sizes> <W> <Y row>                          -> a_jk row computed group slice by group slice
+      wsob  <opa> <ns> <zb> <N> <nSel> <ak> <s values> <src idx> <evt idx> <b per selected event> <r2 values | ->
+            -> none | <log Λ> <sum |terms|>      SourceWeighted(SigOverBkg [x ratio]) on the flat values array
       multi <opa> <ns> <K> <W> <Y flat> <J> {<N_j> <E_j> <R_j flat (K x E_j)>}   -> <log Λ> <f list> <sum |terms|>
 -/
 def chunk {α} (n : Nat) (xs : List α) : List (List α) :=
@@ -65,6 +67,24 @@ def answer (line : String) : String :=
       let Y := pList pF y
       let init := List.replicate W.length (0.0 / 0.0 : Float)
       fListD fF (calcRow init (List.zip (splitSizes sz W) (splitSizes sz Y)))
+  | ["wsob", opa, ns, zb, n, nsel, ak, sv, src, evt, b, r2] =>
+      let a := pList pF ak
+      let srcI := pList pN src
+      let evtI := pList pN evt
+      let N := pN n
+      let nSel := pN nsel
+      match LLH.sobValues (pF zb) (pList pF sv) (pList pF b) evtI with
+      | none => "none"
+      | some r1 =>
+        let vals? := if r2 == "-" then some r1 else LLH.ratioProductChecked r1 (pList pF r2)
+        match vals? with
+        | none => "none"
+        | some vals =>
+          let Ri := ratioWeighted a (densify a.length nSel srcI evtI vals) nSel
+          let Xs := Ri.map (LLH.xOfRatio N)
+          let sa := (Xs.map (fun X => (LLH.logLambdaI (pF opa) (pF ns) X).abs)).foldl (· + ·) 0
+            + (LLH.pureBkgTerm N Xs.length (pF ns)).abs
+          s!"{fF (LLH.llrOfRatios (pF opa) N (pF ns) Ri)} {fF sa}"
   | "multi" :: opa :: ns :: k :: w :: y :: _j :: rest =>
       let K := pN k
       let W := pList pF w
